@@ -320,6 +320,13 @@ def _rule_flatten_structural(ctx):
 
 
 def rule_unflatten(ctx):
+    # the structural reading (one slicing idiom for shape and axes, one loop for axis=None) on trial; the scenario table of unflatten - one, two and interleaved groups,
+    # by name, by position, all at once - decides when the function is written otherwise
+    from ..report import on_trial
+    on_trial(ctx, _unflatten_structural, [RS + 'unflatten'], ('R2', 'R3'), 'unflatten')
+
+
+def _unflatten_structural(ctx):
     fi = ctx.fn(RS + 'unflatten')
     AXIS = P_('axis')
     ev = run(ctx, fi, facts={T.mkcmp('is', AXIS, T.CONST_NONE): False})
